@@ -2,6 +2,7 @@
 //! usage: fv <ID> [--tier quick|thorough] [--seed N] [--case N] [--replay file]
 mod c01;
 mod c02;
+mod c03;
 mod c04;
 mod c06;
 mod c08;
@@ -9,6 +10,7 @@ mod c10;
 mod c13;
 mod c14;
 mod c15;
+mod c20;
 mod fd;
 mod monitor;
 mod prng;
@@ -82,6 +84,7 @@ fn main() {
     let code = match id.as_str() {
         "C01" => c01::run(mk("C01")),
         "C02" => c02::run(mk("C02")),
+        "C03" => c03::run(mk("C03")),
         "C04" => c04::run(mk("C04")),
         "C06" => c06::run(mk("C06")),
         "C08" => c08::run(mk("C08")),
@@ -89,6 +92,7 @@ fn main() {
         "C13" => c13::run(mk("C13")),
         "C14" => c14::run(mk("C14")),
         "C15" => c15::run(mk("C15")),
+        "C20" => c20::run(mk("C20")),
         _ => {
             eprintln!("unknown property {id}");
             2
